@@ -2,3 +2,4 @@ pub mod bus;
 pub mod irq;
 pub mod mbc;
 pub mod sm83;
+pub mod timer;
